@@ -1,6 +1,7 @@
 import python_minifier.ast_compat as ast
 
 from python_minifier.rename.binding import NameBinding
+from python_minifier.rename.mapper import binding_namespace
 from python_minifier.rename.util import arg_rename_in_place, builtins, get_global_namespace
 from python_minifier.transforms.suite_transformer import NodeVisitor
 
@@ -46,13 +47,15 @@ class NameBinder(NodeVisitor):
         return binding
 
     def visit_Name(self, node):
-        if node.id in node.namespace.nonlocal_names:
+        namespace = binding_namespace(node)
+
+        if node.id in namespace.nonlocal_names:
             # A nonlocal name does not create a binding.
             # We will resolve the binding later
             return
 
         if isinstance(node.ctx, (ast.Store, ast.Del)):
-            self.get_binding(node.id, node.namespace).add_reference(node)
+            self.get_binding(node.id, namespace).add_reference(node)
 
         if isinstance(node.ctx, ast.Param):
             binding = self.get_binding(node.id, node.namespace)
